@@ -18,6 +18,8 @@ using namespace verif;
 struct RV {
 	uint64_t key, nkey, tkey;
 	RV(uint64_t k) : key(k), nkey(~k), tkey(3 * k) { hb_mark("value-" + std::to_string(k)); }
+	// a destroyed value is recognisably dead: a reader that is handed one sees inconsistent fields
+	~RV() { key = 0xDEADDEADDEADDEADull; nkey = 0; tkey = 1; }
 };
 struct MallocAlloc {
 	void *allocate(size_t n) { return ::malloc(n); }
